@@ -1074,6 +1074,8 @@ def make_segment(data, mode, encoding=None):
         # Note: len(segment.data)! segment.data_length = len(segment.data) / 2!!
         for i in range(0, segment_length, 2):
             code = (segment_data[i] << 8) | segment_data[i + 1]
+            if not 0xa1 <= segment_data[i + 1] <= 0xfe:
+                raise ValueError(f'Invalid Hanzi bytes: {code}')
             if 0xa1a1 <= code <= 0xaafe:
                 # For characters with GB2312 values from A1A1HEX to AAFEHEX:
                 # a) Subtract A1A1HEX from GB2312 value;
@@ -1092,6 +1094,8 @@ def make_segment(data, mode, encoding=None):
         # ISO/IEC 18004:2015(E) -- 7.4.6 Kanji mode (page 29)
         for i in range(0, segment_length, 2):
             code = (segment_data[i] << 8) | segment_data[i + 1]
+            if not 0x40 <= segment_data[i + 1] <= 0xfc or segment_data[i + 1] == 0x7f:
+                raise ValueError(f'Invalid Kanji bytes: {code}')
             if 0x8140 <= code <= 0x9ffc:
                 # 1. a) For characters with Shift JIS values from 8140HEX to 9FFCHEX:
                 # Subtract 8140HEX from Shift JIS value;
